@@ -254,3 +254,86 @@ _reg(CliCreate("T_create_two_t3", FILES2, threads=3, preempt=0))
 _reg(CliPresentations("present_arc", FILES2))
 _reg(CliAnyText("anytext3", 3))
 _reg(CliAnyText("T_anytext4", 4))
+
+
+class CliPanVsFiles(Instance):
+    """C19: one PanSN file versus one file per sample with the same headers: same sample list, identical extracted contigs."""
+    crates = ("ragc-cli", "ragc-core", "ragc-common")
+
+    def __init__(self, name, records, threads=1):
+        Instance.__init__(self, name)
+        self.records, self.threads = records, threads
+        self.required_witnesses = ("both_created", "same_content")
+        self.n_concrete = 0
+        self.bounds = {"records": f"{len(records)} PanSN records of {len({h.split(b'#')[0] for h, _ in records})} samples (concrete); second sample's first contig has one symbolic base at every position over codes 0..4",
+                       "presentations": "single PanSN file (single-file mode) vs one file per sample (multi-file mode)"}
+
+    def path(self, e):
+        recs = [(h, [Int(8, 0, x) for x in sq]) for h, sq in self.records]
+        # one symbolic substitution in the first record of the last sample
+        idx = max(i for i, (h, _) in enumerate(recs) if h.split(b"#")[0] == recs[-1][0].split(b"#")[0] and (i == 0 or recs[i - 1][0].split(b"#")[0] != h.split(b"#")[0]))
+        pos = e.choose(len(recs[idx][1]), "pos")
+        b = e.sym_bytes("b", 1, among=[0, 1, 2, 3, 4])[0]
+        recs[idx][1][pos] = b
+        L = b"ACGTN"
+
+        def text(rs):
+            out = []
+            for h, sq in rs:
+                out += [Int(8, 0, x) for x in b">" + h + b"\n"]
+                for x in sq:
+                    ch = Int(8, 0, L[4])
+                    for code in range(4):
+                        ch = ite_int(e.binop("Eq", x, Int(8, 0, code)), Int(8, 0, L[code]), ch)
+                    out.append(ch if not x.conc() else Int(8, 0, LETTERS[x.v]))
+                out.append(Int(8, 0, 10))
+            return out
+        r1 = run_create(e, [(b"/in/pan.fa", text(recs))], threads=self.threads)
+        e.prove(r1.variant == 0, "present:create_failed", "create failed on the PanSN file")
+        a = read_all(e)
+        samples = []
+        for h, sq in recs:
+            sm = b"#".join(h.split(b"#")[:2])
+            if not samples or samples[-1][0] != sm:
+                samples.append((sm, []))
+            samples[-1][1].append((h, sq))
+        r2 = run_create(e, [(b"/in/" + sm.replace(b"#", b"_") + b".fa", text(rs)) for sm, rs in samples], threads=self.threads)
+        e.prove(r2.variant == 0, "present:create_failed", "create failed on the per-sample files")
+        bb = read_all(e)
+        e.witness("both_created")
+        for v in range(5):
+            if e.branch(e.binop("Eq", b, Int(8, 0, v))):
+                break
+        ev = e.eval_concrete
+        norm = lambda got: None if got is None else [(bytes(ev(x) for x in nm), None if cs is None else [(bytes(ev(x) for x in h), [ev(x) for x in sq]) for h, sq in cs]) for nm, cs in got]
+        na, nb = norm(a), norm(bb)
+        e.inputs["value"] = v
+        e.prove(na is not None and nb is not None, "present:archive_unreadable", "an archive cannot be opened")
+        e.prove(na == nb, "present:pansn_vs_files", f"single PanSN file gives {na}, per-sample files give {nb}")
+        want = [(sm, [(h, [ev(x) for x in sq]) for h, sq in rs]) for sm, rs in samples]
+        e.prove(na == want, "present:pansn_roundtrip", f"single PanSN file extracts {na}, input was {want}")
+        e.witness("same_content")
+        return None
+
+    def classify_panic(self, e, ex):
+        return f"present:panic:{ex.where.split('::')[-1]}:{ex.kind}", str(ex)
+
+    def native(self, inp):
+        recs = [(h, list(sq)) for h, sq in self.records]
+        idx = max(i for i, (h, _) in enumerate(recs) if h.split(b"#")[0] == recs[-1][0].split(b"#")[0] and (i == 0 or recs[i - 1][0].split(b"#")[0] != h.split(b"#")[0]))
+        recs[idx][1][inp.get("pos", 0)] = inp.get("value", (inp.get("b") or [0])[0])
+        samples = []
+        for h, sq in recs:
+            sm = b"#".join(h.split(b"#")[:2])
+            if not samples or samples[-1][0] != sm:
+                samples.append((sm, []))
+            samples[-1][1].append((h, sq))
+        want = [[sm.decode(), [[h.decode(), "".join(chr(LETTERS[c]) for c in sq)] for h, sq in rs]] for sm, rs in samples]
+        return "cli_create_pan_vs_files", {"pan": [["pan.fa", fasta(recs).decode()]], "files": [[sm.replace(b"#", b"_").decode() + ".fa", fasta(rs).decode()] for sm, rs in samples], "want": want, "threads": self.threads}
+
+    def confirm(self, viol, outs):
+        return any(("panic" in o or "crash" in o or o.get("ok") is False) for o in outs.values())
+
+
+from mirsym.models import ite_int
+_reg(CliPanVsFiles("pan_vs_files", PAN[0][1]))
